@@ -222,6 +222,9 @@ Record case := mkCase {
   c_intra : list (list (list (Z * Z))); (* per call: probes taken INSIDE the call, before each command the
                                            store sent to redis (empty on etcd): a call is one MULTI/EXEC, so a
                                            reader between two commands sees the state before or after the call *)
+  c_torn : list (list (list Z));        (* per call: GetDeployStatus values (one per node) returned to a reader
+                                           whose own reads straddle the call: it was stopped before one of its
+                                           requests, the call ran completely, the reader went on *)
   c_markers_left : bool                 (* a marker of this ident exists after the last call *)
 }.
 
@@ -282,6 +285,25 @@ Fixpoint intra_agree (ps : list (list (Z * Z))) (intra : list (list (list (Z * Z
   | _, _ => false
   end.
 
+(* GetDeployStatus is two reads: the deployed keys first, the markers second
+   (store/etcdv3/deploy.go, store/redis/deploy.go).  A reader straddling a call
+   sees, per node, the status before the call, the status after it, or the
+   TORN value: recorded before + markers after *)
+Definition torn_value (pre post : Z * Z) : Z := snd pre + (fst post - snd post).
+Fixpoint torn_row (pre post : list (Z * Z)) (row : list Z) : bool :=
+  match pre, post, row with
+  | [], [], [] => true
+  | a :: pre', b :: post', x :: row' =>
+      (Z.eqb x (fst a) || Z.eqb x (fst b) || Z.eqb x (torn_value a b)) && torn_row pre' post' row'
+  | _, _, _ => false
+  end.
+Fixpoint torn_agree (ps : list (list (Z * Z))) (torn : list (list (list Z))) : bool :=
+  match ps, torn with
+  | pre :: ((post :: _) as rest), l :: more => forallb (torn_row pre post) l && torn_agree rest more
+  | _, [] => true
+  | _, _ => false
+  end.
+
 Definition agree (c : case) : bool :=
   match trace (c_backend c) (c_ident c) (c_plan c) (deployed (c_init c))
               (start_acc (c_plan c), c_init c) (c_calls c) with
@@ -289,6 +311,7 @@ Definition agree (c : case) : bool :=
   | Some sts =>
       probes_eqb (map (fun s => probe_of (snd s) (c_nodes c)) sts) (c_probes c)
       && intra_agree (map (fun s => probe_of (snd s) (c_nodes c)) sts) (c_intra c)
+      && torn_agree (map (fun s => probe_of (snd s) (c_nodes c)) sts) (c_torn c)
       && bools_eqb (results_of (c_backend c) (c_ident c) sts (c_calls c)) (c_results c)
       && Bool.eqb (has_marker_of (snd (last sts (start_acc (c_plan c), c_init c))) (c_ident c)) (c_markers_left c)
   end.
@@ -307,6 +330,20 @@ Definition bounds_ok (plan : list (string * Z)) (nodes : list string) (prior pro
 Definition exact_ok (init : dstate) (nodes : list string) (probe : list (Z * Z)) : bool :=
   forallb (fun t => let '(n, q) := t in Z.eqb (fst q - snd q) (marker_sum (markers init) n)) (combine nodes probe).
 
+(* the straddling reader: what was recorded when it started <= its value <= prior + planned *)
+Definition torn_bounds (plan : list (string * Z)) (nodes : list string) (prior pre : list (Z * Z)) (row : list Z) : bool :=
+  Nat.eqb (List.length row) (List.length nodes) &&
+  forallb (fun t => let '(n, ((p, q), x)) := t in
+                    Z.leb (snd q) x && Z.leb x (fst p + planned plan n))
+          (combine nodes (combine (combine prior pre) row)).
+Fixpoint torn_ok (plan : list (string * Z)) (nodes : list string) (prior : list (Z * Z))
+    (ps : list (list (Z * Z))) (torn : list (list (list Z))) : bool :=
+  match ps, torn with
+  | pre :: rest, l :: more => forallb (torn_bounds plan nodes prior pre) l && torn_ok plan nodes prior rest more
+  | _, [] => true
+  | _, _ => false
+  end.
+
 Definition all_deletes_issued (plan : list (string * Z)) (cs : list call) : bool :=
   forallb (fun n => existsb (fun c => match c with CDelProc n' false => String.eqb n n' | _ => false end) cs)
           (map fst plan).
@@ -318,6 +355,7 @@ Definition ok (c : case) : bool :=
       exact_ok (c_init c) (c_nodes c) prior
       && forallb (bounds_ok (c_plan c) (c_nodes c) prior) (c_probes c)
       && forallb (forallb (bounds_ok (c_plan c) (c_nodes c) prior)) (c_intra c)
+      && torn_ok (c_plan c) (c_nodes c) prior (c_probes c) (c_torn c)
       && (if all_deletes_issued (c_plan c) (c_calls c)
           then exact_ok (c_init c) (c_nodes c) (last (c_probes c) prior) && negb (c_markers_left c)
           else true)
